@@ -153,6 +153,10 @@ pub struct CompSpec {
     pub gate: Option<GateId>,
     /// middleware only: calls `get_state()` inside every hook and logs the value (C08)
     pub reads_state: bool,
+    /// calls `get_state()` of *that* store (another one) in every reducer call / hook and ignores
+    /// the value: a read-only use of a second store from inside a callback (C19)
+    #[serde(default)]
+    pub pokes: Option<StoreIx>,
 }
 
 #[derive(Clone, Copy, Debug, PartialEq, Eq, Hash, Serialize, Deserialize)]
@@ -186,6 +190,12 @@ pub struct SubSpec {
     /// index 2000 + subscriber id - e.g. unsubscribing the same object from another store
     #[serde(default)]
     pub on_unsub_ops: Vec<Op>,
+    /// client-style operations executed from inside the notification callback (direct: on_notify,
+    /// selector: the on-change closure) when the callback runs for the named action; entry k, op i
+    /// is logged with thread index 3000 + subscriber id and op index 16 * k + i. Never used on
+    /// channeled subscribers (their callback runs on the thread that unsubscribe() joins).
+    #[serde(default)]
+    pub on_notify_ops: Vec<(ActId, Vec<Op>)>,
 }
 
 #[derive(Clone, Debug, PartialEq, Eq, Hash, Serialize, Deserialize)]
@@ -298,5 +308,46 @@ impl Scenario {
     }
     pub fn all_ops(&self) -> impl Iterator<Item = &Op> {
         self.prelude.iter().chain(self.threads.iter().flatten()).chain(self.epilogue.iter())
+    }
+    /// Every operation anybody may perform: client ops plus the ones issued from inside effects,
+    /// thunks / tasks and subscriber callbacks.
+    pub fn every_op(&self) -> Vec<&Op> {
+        let mut v: Vec<&Op> = self.all_ops().collect();
+        for a in &self.actions {
+            for (_, e) in &a.effects {
+                v.extend(e.ops.iter());
+            }
+        }
+        for o in self.all_ops() {
+            if let Op::DispatchThunk { eff, .. } | Op::DispatchTask { eff, .. } = o {
+                v.extend(eff.ops.iter());
+            }
+        }
+        for s in &self.subs {
+            v.extend(s.on_unsub_ops.iter());
+            for (_, ops) in &s.on_notify_ops {
+                v.extend(ops.iter());
+            }
+        }
+        v
+    }
+    /// Does the event log show what the pipeline of `store` does with *every* action? True when a
+    /// scripted reducer or middleware is configured at build time (the first middleware's
+    /// before_reduce, or else every reducer, runs for each action), or when a direct subscriber is
+    /// registered before the clients start and nobody ever unsubscribes it. A store with an empty
+    /// chain, no middleware and no such observer processes actions without any callback; oracles
+    /// that count "actions taken by the reducer" cannot judge it.
+    pub fn observable(&self, store: StoreIx) -> bool {
+        let sp = &self.stores[store];
+        if !sp.reducers.is_empty() || !sp.middlewares.is_empty() {
+            return true;
+        }
+        let every = self.every_op();
+        self.prelude.iter().any(|o| match o {
+            Op::Subscribe { store: s, sub } if *s == store => {
+                matches!(self.sub(*sub).kind, SubKind::Direct) && !every.iter().any(|x| matches!(x, Op::Unsubscribe { sub: u, .. } if u == sub))
+            }
+            _ => false,
+        })
     }
 }
